@@ -276,7 +276,9 @@ class InputValidation:
         """
 
         one_of_validations: dict[str, Any] = {}
-        local_validations = self.validations.copy()
+        local_validations = {
+            param: validations.copy() for param, validations in self.validations.items()
+        }
         for param, validations in local_validations.items():
             if param not in data.keys():
                 if "required" in validations and not self.ignore_requirements:
